@@ -633,7 +633,7 @@ func c11ExecTC(r *sim.Run, sc *c11TCSc) {
 				}
 				if !isGate && cur.exists && next.exists && changed0(cur, next) && c11TCFutKind(cur.v) != c11TCFutKind(next.v) {
 					kindChanged[op.Name] = fmt.Sprintf("%s(v%d)->%s(v%d)", c11TCFutKind(cur.v), cur.v, c11TCFutKind(next.v), next.v)
-					r.Probe("c11.tc.update_changes_kind_of_named_filter/" + c11TCFutKind(cur.v) + "->" + c11TCFutKind(next.v))
+					r.Probe("c11.tc.update_changes_kind_of_named_filter/to-" + c11TCFutKind(next.v))
 				}
 				lifeBefore := lifeOf(op.Name)
 				var instBefore *muxInstance
